@@ -192,7 +192,7 @@ def mean_facts(chk):
             return None, None
         return f, f.name
 
-    if isinstance(v, _ast.Call) and norm(v.func) in ("np.mean", "numpy.mean"):
+    if isinstance(v, _ast.Call) and norm(v.func) in ("np.mean", "numpy.mean") and style_filter(mean)[0] is not None:
         f, _ = style_filter(mean)
         cs = comps(v)
         if f is not None and len(cs) == 1 and len(cs[0].generators) == 1:
@@ -202,6 +202,35 @@ def mean_facts(chk):
             out["over_filtered"] = norm(elt) == f"self.assort({norm(tgt)})" and norm(it) == "cvr_list" and len(ifs) == 1 \
                 and norm(ifs[0]) == f"{f.name}({norm(tgt)})"
         return out
+    if isinstance(v, _ast.Call) and norm(v.func) in ("np.mean", "numpy.mean") and style_filter(mean)[0] is None:
+        # C.  if use_style: R = filter(lambda c: P(c), cvr_list) [or a generator over cvr_list with that test]  else: R = cvr_list
+        #     ... np.mean([self.assort(c) for c in R]):  the cards are those with (not use_style) or P(c)
+        cs = comps(v)
+        if len(cs) == 1 and len(cs[0].generators) == 1:
+            elt, tgt, it, ifs = single_gen(cs[0])
+            if isinstance(it, _ast.Name) and not ifs and norm(elt) == f"self.assort({norm(tgt)})":
+                defs = [s_ for s_ in walk_local(mean) if isinstance(s_, _ast.Assign) and len(s_.targets) == 1 and norm(s_.targets[0]) == it.id]
+                branch = parent(defs[0]) if defs else None
+                if len(defs) == 2 and isinstance(branch, _ast.If) and parent(defs[1]) is branch and len(branch.body) == 1 and len(branch.orelse) == 1:
+                    pos, neg = branch.body[0].value, branch.orelse[0].value
+                    tcond = _Tx().cond(branch.test)
+                    if norm(pos) in ("cvr_list", "list(cvr_list)"):
+                        pos, neg, tcond = neg, pos, c_not(tcond)
+                    pred = None
+                    if norm(neg) in ("cvr_list", "list(cvr_list)"):
+                        if isinstance(pos, _ast.Call) and norm(pos.func) == "filter" and len(pos.args) == 2 and isinstance(pos.args[0], _ast.Lambda) \
+                                and norm(pos.args[1]) == "cvr_list" and len(pos.args[0].args.args) == 1:
+                            pred = (pos.args[0].args.args[0].arg, pos.args[0].body)
+                        elif isinstance(pos, (_ast.GeneratorExp, _ast.ListComp)) and len(pos.generators) == 1 and len(pos.generators[0].ifs) == 1 \
+                                and norm(pos.generators[0].iter) == "cvr_list" and norm(pos.elt) == norm(pos.generators[0].target):
+                            pred = (norm(pos.generators[0].target), pos.generators[0].ifs[0])
+                    if pred is not None:
+                        var, body = pred
+                        t_ = _Tx(env={var: E(S("c"))})
+                        out["filter"] = c_or(c_not(tcond), t_.cond(body))
+                        out["over_filtered"] = True
+                        out["detail"] = dict(elt=norm(elt), cards=f"{norm(pos)[:80]} if {norm(branch.test)} else {norm(neg)}")
+                        return out
     if isinstance(v, _ast.BinOp) and isinstance(v.op, _ast.Div) and isinstance(v.left, _ast.Call) and norm(v.left.func) == "self.sum":
         # numerator: Assorter.sum over the filtered cards
         sm = chk.fn(REL, "Assorter.sum", canonical=True)
